@@ -55,6 +55,14 @@ EXPORT void* spqlios_keep_or_free(void* ptr, void* ptr2);
 #define CPU_SUPPORTS(xxxx) 0
 #endif
 
+#if defined(SPQLIOS_VERIF) && defined(__x86_64__)
+/* verification hook: the harness may hide CPU features from the dispatchers (it can only remove features) */
+EXPORT int spqlios_verif_cpu_allows(const char* feature);
+#define SPQLIOS_VERIF_CPU_SUPPORTS(xxxx) (spqlios_verif_cpu_allows(xxxx) && __builtin_cpu_supports(xxxx))
+#undef CPU_SUPPORTS
+#define CPU_SUPPORTS SPQLIOS_VERIF_CPU_SUPPORTS
+#endif
+
 /** @brief returns the n bits of value in reversed order */
 EXPORT uint32_t revbits(uint32_t nbits, uint32_t value);
 
